@@ -45,4 +45,16 @@ theorem decode_canonical {α} (zero : α) (m : Member α) : decode zero (encode 
 example : decode 0 (encode (⟨true, true, 5⟩ : W Nat)) ≠ ⟨true, true, 5⟩ := by decide
 example : decode 0 (encode (⟨false, false, 5⟩ : W Nat)) ≠ ⟨false, false, 5⟩ := by decide
 example : state (⟨true, true, 5⟩ : W Nat) = state (decode 0 (encode (⟨true, true, 5⟩ : W Nat))) := by decide
+/-! line protocol: `optnil <set> <null> <value hex>` ↦ member kind on the wire and the state after decoding -/
+def memberStr : Member String → String
+  | .omitted => "omitted" | .null => "null" | .val a => "val:" ++ a
+def stateKind : Member String → String
+  | .omitted => "omitted" | .null => "null" | .val _ => "val"
+def optnilLine (line : String) : String :=
+  match (line.splitOn " ").filter (· ≠ "") with
+  | [s, n] => let w : W String := ⟨s == "1", n == "1", ""⟩
+              memberStr (encode w) ++ " " ++ stateKind (state (decode "" (encode w)))
+  | [s, n, v] => let w : W String := ⟨s == "1", n == "1", v⟩
+                 memberStr (encode w) ++ " " ++ stateKind (state (decode "" (encode w)))
+  | _ => "bad"
 end OptNil
